@@ -17,7 +17,8 @@ EXPLANATION = (
     "deadline, no fired handle is cancelled; Q5 - PINGREQ bytes are written only by that routine, reachable only from the "
     "periodic call and ping() while CONNECTED. All timing statements (every k seconds, within k seconds, never when "
     "answered in time) are NOT decided. Not a finding on purpose: the routine overwrites the deadline handle without "
-    "cancelling the previous one - period and deadline are the same k, so the orphaned deadline is the one that must fire. Q0: the premises of the framing lemma (every rule of C03) hold, a necessary condition of anything said about inbound packets.")
+    "cancelling the previous one - period and deadline are the same k, so the orphaned deadline is the one that must fire. Q0: the premises of the framing lemma (every rule of C03) hold, a necessary condition of anything said about inbound packets. "
+    " Q7 - no reset()/delay() on the periodic call or the deadline in any context, and the periodic call is stopped by the loss only.")
 ASSUMPTIONS = ["LoopingCall calls its target every `period` seconds starting immediately (Twisted contract)"]
 
 CONN = ("attr", SELF, "connReq")
@@ -155,6 +156,28 @@ def check(ctx):
                            function=e.func, construct="%s/deadline-cancel/%s" % (e.func, tr.label()),
                            msg="the deadline of an outstanding PINGREQ is cancelled in context %s: a later PINGREQ (the periodic call has the same "
                                "period as the deadline) discards the deadline of an unanswered one and a dead broker is never detected" % tr.label())
+        # ---------------- Q7: the schedule of the periodic call and of the deadline is left alone -----------------------------------
+        # started at CONNACK, stopped at the loss; reset()/delay() (other traffic counted as keepalive traffic, say) push the next
+        # PINGREQ or the deadline into the future: "at least every k seconds ... any amount of other traffic"
+        n_q7 = 0
+        for tr in contexts(cat):
+            for e in tr.events:
+                loc = hd.handle_location(e.a.get("handle"), tr) if e.kind in ("TIMERQ", "CANCEL") else None
+                if loc is None or loc[0] != "ping":
+                    continue
+                if e.kind == "TIMERQ" and e.a["name"] in ("reset", "delay"):
+                    n_q7 += 1
+                    ctx.ob("Q7", "%s keepalive %s is never rescheduled (%s)" % (cq, loc[1], tr.label()), False, where=where(e), function=e.func,
+                           construct="%s/keepalive-%s/%s" % (e.func, loc[1], e.a["name"]),
+                           msg="%s() on the keepalive %s in context %s moves the next %s into the future: with enough other traffic no PINGREQ "
+                               "is written for longer than the keepalive / an unanswered one is never detected" % (
+                                   e.a["name"], "periodic call" if loc[1] == "timer" else "deadline", tr.label(),
+                                   "PINGREQ" if loc[1] == "timer" else "abort"))
+                if e.kind == "CANCEL" and loc == ("ping", "timer"):
+                    n_q7 += 1
+                    ctx.ob("Q7", "%s the periodic PINGREQ call is stopped only by the loss of the connection (%s)" % (cq, tr.label()), tr.kind == "LOSS",
+                           where=where(e), function=e.func, construct="%s/keepalive-timer/stop/%s" % (e.func, tr.label()),
+                           msg="the periodic call is stopped in context %s while the connection is up: no PINGREQ is written afterwards" % tr.label())
         # ---------------- Q4 ----------------
         for tr, what, ok, ev in hd.loss_obligations():
             if "keepalive" in what:
